@@ -159,17 +159,52 @@ type alphabet struct {
 
 func candidateRunes() []rune {
 	var c []rune
+	add := func(lo, hi rune) {
+		for r := lo; r <= hi; r++ {
+			c = append(c, r)
+		}
+	}
+	// digits and letters first so that shortest witnesses look like numbers
+	add('0', '9')
+	add('a', 'z')
+	add('A', 'Z')
 	for r := rune(0x20); r <= 0x7e; r++ {
-		c = append(c, r)
+		if !(r >= '0' && r <= '9' || r >= 'a' && r <= 'z' || r >= 'A' && r <= 'Z') {
+			c = append(c, r)
+		}
 	}
 	return append(c, 0xe9)
 }
 
-func buildAlphabet(as ...*nfa) alphabet {
+// lexCat refines the regexp-induced classes by what the import functions (strconv, hex) can tell
+// apart, so that the witnesses replayed through them are numerically diverse. Any refinement of
+// the partition keeps the automaton exact.
+func lexCat(r rune) string {
+	switch {
+	case r == '0', r == '1', r == 'e', r == 'E', r == '.', r == '-', r == '+', r == '<', r == '>', r == '_':
+		return string(r)
+	case r >= '2' && r <= '9':
+		return "d"
+	case r >= 'a' && r <= 'f':
+		return "h"
+	case r >= 'A' && r <= 'F':
+		return "H"
+	case r >= 'g' && r <= 'z':
+		return "l"
+	case r >= 'G' && r <= 'Z':
+		return "L"
+	}
+	return "o"
+}
+
+func buildAlphabet(refine bool, as ...*nfa) alphabet {
 	al := alphabet{members: map[rune][]rune{}}
 	bySig := map[string]rune{}
 	for _, r := range candidateRunes() {
 		var b strings.Builder
+		if refine {
+			b.WriteString(lexCat(r) + ":")
+		}
 		for _, a := range as {
 			for _, pc := range a.runeInsts {
 				if a.prog.Inst[pc].MatchRune(r) {
@@ -224,6 +259,7 @@ type productResult struct {
 	OnlyA               *string  // shortest string accepted by A and not by B (filled when wantDiff)
 	Witnesses           []string // all jointly accepted strings up to maxLen over the class alphabet (with variants)
 	WitnessesCapped     bool
+	EnumLen             int
 }
 
 const stateCap = 200000
@@ -233,7 +269,7 @@ const witnessCap = 4000
 // If wantDiff, it also looks for the shortest string in L(A) \ L(B) and does not prune states in
 // which B is dead.
 func exploreProduct(A, B *nfa, maxLen int, wantDiff bool) productResult {
-	al := buildAlphabet(A, B)
+	al := buildAlphabet(true, A, B)
 	word := A.usesWord || B.usesWord
 	aMid, bMid := A.midStartAlive(al.reps), B.midStartAlive(al.reps)
 	dead := func(n *nfa, s astate, mid bool, prev rune) bool {
@@ -292,8 +328,12 @@ func exploreProduct(A, B *nfa, maxLen int, wantDiff bool) productResult {
 			res.States++
 		}
 	}
-	// all jointly accepted strings up to maxLen (DFS over the same transition function)
+	// all jointly accepted strings up to max(maxLen, len(shortest)+2) runes, by increasing length
 	if res.Witness != nil && maxLen > 0 {
+		if l := len([]rune(*res.Witness)) + 2; l > maxLen {
+			maxLen = l
+		}
+		res.EnumLen = maxLen
 		seen := map[string]bool{}
 		add := func(w string) {
 			if !seen[w] {
@@ -301,23 +341,23 @@ func exploreProduct(A, B *nfa, maxLen int, wantDiff bool) productResult {
 				res.Witnesses = append(res.Witnesses, w)
 			}
 		}
-		var rec func(st pstate, rs []rune)
-		rec = func(st pstate, rs []rune) {
+		var rec func(st pstate, rs []rune, target int)
+		rec = func(st pstate, rs []rune, target int) {
 			if len(res.Witnesses) >= witnessCap {
 				res.WitnessesCapped = true
 				return
 			}
-			if A.accepts(st.a, st.prev) && B.accepts(st.b, st.prev) {
-				add(string(rs))
-				// variant: last member of every class instead of the first
-				alt := make([]rune, len(rs))
-				for i, r := range rs {
-					m := al.members[r]
-					alt[i] = m[len(m)-1]
+			if len(rs) == target {
+				if A.accepts(st.a, st.prev) && B.accepts(st.b, st.prev) {
+					add(string(rs))
+					// variant: last member of every class instead of the first
+					alt := make([]rune, len(rs))
+					for i, r := range rs {
+						m := al.members[r]
+						alt[i] = m[len(m)-1]
+					}
+					add(string(alt))
 				}
-				add(string(alt))
-			}
-			if len(rs) == maxLen {
 				return
 			}
 			for _, r := range al.reps {
@@ -327,10 +367,12 @@ func exploreProduct(A, B *nfa, maxLen int, wantDiff bool) productResult {
 				if dead(A, na, aMid, pk) || dead(B, nb, bMid, pk) {
 					continue
 				}
-				rec(pstate{a: na, b: nb, prev: pk}, append(append([]rune{}, rs...), r))
+				rec(pstate{a: na, b: nb, prev: pk}, append(append([]rune{}, rs...), r), target)
 			}
 		}
-		rec(init, nil)
+		for l := 0; l <= maxLen && !res.WitnessesCapped; l++ {
+			rec(init, nil, l)
+		}
 		sort.Slice(res.Witnesses, func(i, j int) bool {
 			if len(res.Witnesses[i]) != len(res.Witnesses[j]) {
 				return len(res.Witnesses[i]) < len(res.Witnesses[j])
